@@ -11,7 +11,7 @@ ID = "C06"
 OPT_QUICK_ALL = True      # every partition also in a child interpreter started with -O
 LEVEL = "exploration"
 TECHNIQUE = "deviation-bounded exhaustive enumeration of value dictionaries and of canonical byte strings (independent encoders); both round-trip directions and single-field read-modify-write are compared bit for bit with whole-buffer integer deposit"
-RULE = ("classes derived from Inquiry that override one designator helper (delegating): parse + rebuild of Device Identification pages goes through the override as often as the base class goes through its own; structures with both directions: standard INQUIRY, VPD 80h/83h/86h/B2h/B3h, designators (9 kinds, NAA 2/3/5/6, EUI-64 8/12/16), mode "
+RULE = ("save / re-read / restore: 8 methods, the response read first rebuilt from the dictionary obtained then after the same command object or the next call decoded another response; classes derived from Inquiry that override one designator helper (delegating): parse + rebuild of Device Identification pages goes through the override as often as the base class goes through its own; structures with both directions: standard INQUIRY, VPD 80h/83h/86h/B2h/B3h, designators (9 kinds, NAA 2/3/5/6, EUI-64 8/12/16), mode "
         "parameter lists 6/10 (4 pages), READ CAPACITY 10/16, GET LBA STATUS, REPORT LUNS, REPORT TARGET PORT GROUPS, REPORT PRIORITY, READ ELEMENT "
         "STATUS, TransportIDs. (a) canonical bytes b from the independent encoders: marshall(unmarshall(b)) == b; (b) unmarshall(marshall(d)) "
         "contains d for d = unmarshall(b); (c) for every field f of every fixed-layout structure and mode page and every alphabet value v: "
@@ -155,6 +155,8 @@ def run_case(case, obs=None):
     kind = case[0]
     if kind == "subclass":
         return run_subclass(case[1], case[2])
+    if kind == "reread":
+        return run_reread(case[1], case[2])
     if kind == "fixed":
         _, fmt, vals, do_rmw = case
         if fmt == "inquiry_std":
@@ -403,6 +405,52 @@ def gen(part, tier):
             yield ["bytes", codec, tag, c]
 
 
+REREAD_METHODS = ("inquiry", "readcapacity10", "readcapacity16", "reportluns", "modesense6", "modesense10", "getlbastatus", "readelementstatus")
+
+
+def run_reread(method, how):
+    """save / change / verify / restore: the response parsed FIRST through a command object is rebuilt from the dictionary obtained then,
+    after the same command object (or the next command of the facade) has parsed another response: the bytes of the first response"""
+    import pyscsi.pyscsi.scsi_enum_command as E
+    from pyscsi.pyscsi.scsi import SCSI
+    from vf import facade as F
+    from vf.props import c13
+    name, key, args = F.FACADE[method]
+    st = F.sets_offering(method)[0]
+    dev = c13.RecDev(getattr(E, st))
+    s = SCSI(dev, 512)
+    dev.opcodes = getattr(E, st)
+    x1, x2 = c13.response_for(method, dict(args), 0), c13.response_for(method, dict(args), 1)
+    if x1 is None or x1 == x2:
+        return []
+    dev.response = x1
+    a = F.call(s, method)
+    saved = a.result
+    cls = type(a)
+    if not hasattr(cls, "marshall_datain"):
+        return []
+    try:
+        before = bytes(cls.marshall_datain(saved))
+    except Exception:   # noqa: BLE001 - no builder for this structure / content
+        return []
+    dk = c13.decoder_kwargs(method, dict(args))
+    if how == "again":
+        n = min(len(x2), len(a.datain))
+        a.datain[:n] = x2[:n]
+        a.unmarshall(**dk)
+    else:
+        dev.response = x2
+        F.call(s, method)
+    try:
+        after = bytes(cls.marshall_datain(saved))
+    except Exception as e:   # noqa: BLE001
+        return [("reread/raises/%s" % method, "%s: rebuilding the response read first raised %s after a re-read: %s" % (method, type(e).__name__, e))]
+    if after != before:
+        return [("reread/saved_result_changed/%s" % method, "%s: the response read first rebuilds to %s..., after %s it rebuilds to %s... (restore would write the NEW state)"
+                 % (method, before[:16].hex(), "the same command object was re-submitted and decoded again" if how == "again" else "another call of the method", after[:16].hex()))]
+    return []
+
+
 NCHUNK = 3
 
 
@@ -444,6 +492,18 @@ def run_subclass(helper, idxs):
 def run_partition(part, tier, seed):
     acc = Acc(seed)
     if part[0] == "subclass":
+        for method in REREAD_METHODS:
+            for how in ("again", "next"):
+                case = ["reread", method, how]
+                acc.case(case, nontrivial=True, key=repr(case))
+                try:
+                    v = run_reread(method, how)
+                except Exception:
+                    import traceback
+                    v = [("harness_error", traceback.format_exc()[-600:])]
+                for k, w in v:
+                    acc.violation(k, w, case)
+                acc.outcome((repr(case), tuple(k for k, _ in v)))
         combos = [[i] for i in range(len(c04.DESIGNATORS))] + [[0, 1], [5, 9], [8, 9, 12]]
         for helper in ("marshall_designator", "unmarshall_designator", "marshall_designation_descriptor"):
             for idxs in combos:
